@@ -448,7 +448,9 @@ func (rw *rewriter) selectParts(s *ast.SelectStmt) (decls []ast.Stmt, sw *ast.Sw
 		cc := cl.(*ast.CommClause)
 		if cc.Comm == nil {
 			hasDefault = true
-			clauses = append(clauses, &ast.CaseClause{List: []ast.Expr{&ast.UnaryExpr{Op: token.SUB, X: &ast.BasicLit{Kind: token.INT, Value: "1"}}}, Body: cc.Body})
+			// Select returns -1 for default: the switch's own default clause (keeps
+			// the statement "terminating" exactly when the select was)
+			clauses = append(clauses, &ast.CaseClause{List: nil, Body: cc.Body})
 			continue
 		}
 		cv := rw.tmp("c")
@@ -492,6 +494,9 @@ func (rw *rewriter) selectParts(s *ast.SelectStmt) (decls []ast.Stmt, sw *ast.Sw
 	def := "false"
 	if hasDefault {
 		def = "true"
+	} else {
+		unreachable := &ast.ExprStmt{X: &ast.CallExpr{Fun: ast.NewIdent("panic"), Args: []ast.Expr{&ast.BasicLit{Kind: token.STRING, Value: strconv.Quote("simrt: select without default returned no case")}}}}
+		clauses = append(clauses, &ast.CaseClause{List: nil, Body: []ast.Stmt{unreachable}})
 	}
 	args := append([]ast.Expr{ast.NewIdent(def)}, caseVars...)
 	sw = &ast.SwitchStmt{Tag: rw.call("Select", args...), Body: &ast.BlockStmt{List: clauses}}
